@@ -18,6 +18,7 @@ type Explorer struct {
 	Delay          bool // delay-bounded policy instead of free switches at blocking points
 	UseMemo        bool
 	MaxSteps       uint64
+	UnorderedSUT   bool // see confirmUnordered
 	Horizon        int64 // virtual ns
 	EarlyWindow    int64 // a timer may be fired early (deviation) only if due within this much virtual time
 	Trace          bool
@@ -309,6 +310,10 @@ func (e *Explorer) Confirm(f *Finding) {
 	saveMemo := e.memo
 	e.memo = nil
 	defer func() { e.memo = saveMemo }()
+	if e.UnorderedSUT {
+		e.confirmUnordered(f)
+		return
+	}
 	var hashes [2]uint64
 	for r := 0; r < 2; r++ {
 		x := e.runOnce(f.Choices, true)
@@ -323,20 +328,49 @@ func (e *Explorer) Confirm(f *Finding) {
 			e.fatal(fmt.Sprintf("finding %s did not reproduce on replay %d (config %s): status %s", f.Key, r, e.Name, x.out.Status))
 		}
 		if r == 0 {
-			f.Trace = lastEntries
-			f.Log = x.out.Log
-			f.Detail = x.out.Detail
-			f.Status = x.out.Status.String()
-			// deviation points: where the chosen alternative cost something
-			for i, p := range x.points {
-				if x.choices[i] >= p.NFree {
-					f.Where = append(f.Where, fmt.Sprintf("point %d alt %d/%d", i, x.choices[i], p.N))
-				}
-			}
+			e.fillFinding(f, x)
 		}
 	}
 	if hashes[0] != hashes[1] {
 		e.fatal(fmt.Sprintf("finding %s: replay hashes differ (%x vs %x): uncaptured nondeterminism", f.Key, hashes[0], hashes[1]))
+	}
+}
+
+func (e *Explorer) fillFinding(f *Finding, x *exec) {
+	f.Trace = lastEntries
+	f.Log = x.out.Log
+	f.Detail = x.out.Detail
+	f.Status = x.out.Status.String()
+	// deviation points: where the chosen alternative cost something
+	for i, p := range x.points {
+		if x.choices[i] >= p.NFree {
+			f.Where = append(f.Where, fmt.Sprintf("point %d alt %d/%d", i, x.choices[i], p.N))
+		}
+	}
+}
+
+// confirmUnordered is Confirm for a scenario that declares a source of nondeterminism inside the code under test
+// which no harness can own (the iteration order of a Go map that the code ranges over): the unmodified code
+// must not depend on it, so on the unmodified tree every replay is identical anyway; a changed tree that does
+// depend on it shows the violation in some replays and not in others. The finding is kept if the same choice list
+// reproduces the same violation key in at least two of up to eight replays (each one an execution of the real
+// code); otherwise it is dropped as an infrastructure error like any other finding that does not reproduce.
+func (e *Explorer) confirmUnordered(f *Finding) {
+	seen := 0
+	for r := 0; r < 8 && seen < 2; r++ {
+		x := e.runOnce(f.Choices, true)
+		for _, v := range x.out.Violations {
+			if v.Key == f.Key {
+				seen++
+				if seen == 1 {
+					e.fillFinding(f, x)
+				}
+				break
+			}
+		}
+	}
+	if seen < 2 {
+		e.fatal(fmt.Sprintf("finding %s reproduced in %d of 8 replays only (config %s, code under test ranges over a map)", f.Key, seen, e.Name))
 	}
 }
 
